@@ -142,6 +142,8 @@ def run_vh(vh, args, cases, timeout=1800, env=None, hang_is_failure=False, death
         except ValueError:
             continue
         if j.get("fail"):
+            j["vh_args"] = list(args)
+            j["vh_env"] = {k: v for k, v in (env or {}).items() if k.startswith("VERIF_")}
             fails.append(j)
         elif j.get("summary"):
             summary = j
